@@ -75,7 +75,9 @@ def get_model(obj: T) -> Any:
     Finds model root element for the given object.
     """
     p = obj
-    while hasattr(p, "parent"):
+    # The root object may have `parent` set to None (e.g. by the constructor of
+    # a user class which is used both for the root and for contained objects).
+    while getattr(p, "parent", None) is not None:
         p = p.parent
     return p
 
